@@ -1307,7 +1307,7 @@ def fn_features(case, ctx):
         snap1 = det_snapshot(last[0])
         d3 = make_detector(M, o)
         if run_quiet(ctx, "run-other-mesh", d3, o, m2):
-            check_detector(ctx, M, m2, d3, o, ref, [tuple(ints(e)) for e in m2.edges], dots2, hard, asum2, V2, True, "run on a second, independent mesh", tol=tol)
+            check_detector(ctx, M, m2, d3, o, ref, [tuple(ints(e)) for e in m2.edges], dots2, set(key(e) for e in E), asum2, V2, True, "run on a second, independent mesh", tol=tol)
             ctx.check(det_snapshot(last[0]) == snap1, "feat:first-detector-changed", "the containers of the first detector changed when another detector ran on another mesh")
             fa = m.edges.get_attribute("feature")
             bad = [e for e in range(len(medges)) if bool(fa[e]) != (e in snap1[0])]
